@@ -26,7 +26,7 @@ var c09Producers = []struct{ Name, JS string }{
 	{"null", `bs.z = null;`},
 	{"push", `if (!bs.xs) { bs.xs = []; } bs.xs.push(3);`},
 	{"throw", `throw "boom";`},
-	{"big", `bs.big = 3000000000; bs.neg = -1;`},
+	{"big", `bs.big = 3000000000; bs.neg = -1; bs.to = 1000001;`},
 	{"strbool", `bs.s = "str"; bs.b = true; bs.e = []; bs.em = {};`},
 	{"objs-in-array", `bs.ys = [{k: 1}, {k: 2, j: [1]}];`},
 	{"ineq-bound", `bs["?<m"] = 2;`},
@@ -82,6 +82,10 @@ func c09Spec() *rstep.ASpec {
 	// branches whose patterns re-use variables a script may have bound
 	hub = append(hub, rstep.ABranch{Pattern: M{"codes": "?codes"}, Target: "y-codes"}, rstep.ABranch{Pattern: M{"one": []interface{}{"?one"}}, Target: "y-codes"})
 	nodes["y-codes"] = &rstep.ANode{Action: &actlang.Prog{Ops: []Op{{K: actlang.Emit, V: M{"granted": true}}}}, Branches: []rstep.ABranch{{Target: "idle"}}}
+	// a branch whose target is taken from a binding (a number, if a script put one there: whatever the engine makes
+	// of that, it makes the same of it after a reload); there is a node with the number's name
+	hub = append(hub, rstep.ABranch{Pattern: M{"jump": "?j"}, Target: "@to"})
+	nodes["1000001"] = &rstep.ANode{Action: &actlang.Prog{Ops: []Op{{K: actlang.Emit, V: M{"arrived": true}}}}, Branches: []rstep.ABranch{{Target: "idle"}}}
 	// a branch without a pattern: any other message is consumed by it (followed only with non-nil bindings)
 	hub = append(hub, rstep.ABranch{Target: "dflt"})
 	nodes["dflt"] = &rstep.ANode{Action: &actlang.Prog{Ops: []Op{{K: actlang.Emit, V: M{"unexpected": true}}}}, Branches: []rstep.ABranch{{Target: "idle"}}}
@@ -99,6 +103,9 @@ func c09Msg(name string) interface{} {
 	}
 	if name == "one-msg" {
 		return M{"one": []interface{}{7.0, 8.0}}
+	}
+	if name == "jump-msg" {
+		return M{"jump": 1.0}
 	}
 	for _, p := range c09Producers {
 		if p.Name == name {
@@ -350,7 +357,7 @@ func C09(c *vh.Ctx) {
 	for _, i := range c09Inspectors {
 		names = append(names, i.Name)
 	}
-	names = append(names, "other", "codes-msg", "one-msg")
+	names = append(names, "other", "codes-msg", "one-msg", "jump-msg")
 	limits := []int{20, 2}
 	if c.Tier == "thorough" {
 		limits = []int{20, 1, 2, 3}
